@@ -111,6 +111,19 @@ func c03Scenario(name string, signers []string, min uint64, fullGov bool) *Scena
 		Action{Name: "whitelist(O,+O)", Dt: time.Millisecond, Txs: tx1(model.Msg{Kind: model.EntWhitelist, From: "O", To: "O", N: 1})},
 	)
 	s.Actions = append(s.Actions, timeSteps(250, time.Second, 99*time.Second, 100*time.Second)...)
+	if !fullGov {
+		// the small genesis also carries the requests the chain must refuse
+		ms := time.Millisecond
+		s.Actions = append(s.Actions,
+			Action{Name: "raise(P1,5tok)", Dt: ms, Txs: tx1(model.Msg{Kind: model.EntRaise, From: "P1", Den: mc.Tok, Amt: "5"})},
+			Action{Name: "raise(P1,0)", Dt: ms, Txs: tx1(model.Msg{Kind: model.EntRaise, From: "P1", Den: mc.Nund, Amt: "0"})},
+			Action{Name: "decide(S1,#1,completed)", Dt: ms, Txs: tx1(model.Msg{Kind: model.EntDecide, From: "S1", ID: 1, N: 4})},
+			Action{Name: "decide(S1,#1,raised)", Dt: ms, Txs: tx1(model.Msg{Kind: model.EntDecide, From: "S1", ID: 1, N: 1})},
+			Action{Name: "whitelist(S1,+P1)", Dt: ms, Txs: tx1(model.Msg{Kind: model.EntWhitelist, From: "S1", To: "P1", N: 1})},
+			Action{Name: "whitelist(S1,-O)", Dt: ms, Txs: tx1(model.Msg{Kind: model.EntWhitelist, From: "S1", To: "O", N: 2})},
+			Action{Name: "whitelist(S1,?P2,action=3)", Dt: ms, Txs: tx1(model.Msg{Kind: model.EntWhitelist, From: "S1", To: "P2", N: 3})},
+		)
+	}
 	if fullGov {
 		s.Actions = append(s.Actions,
 			entGov("gov(signers=S1,S2;min=2)", "S1,S2", 2, 100, "gov", 1),
